@@ -46,6 +46,7 @@ def cases(tier, seed):
                                  lambda c: common.wide_algs(c, lvl)):
         out.append((sc, dict(c, delay={"mode": "choice", "arity": 3})))
     out += common.add_algs(common.park_scope(lvl), common.park_algs)
+    out += common.add_algs(common.park2_scope(lvl), common.park_algs)
     return common.rotate(out, seed)
 
 
